@@ -1648,8 +1648,8 @@ func callBin(n *node) {
 			return fnext
 		}
 	default:
-		switch n.anc.action {
-		case aAssignX:
+		switch {
+		case n.anc.action == aAssignX:
 			// The function call is part of an assign expression, store results direcly
 			// to assigned location, to avoid an additional frame copy.
 			// The optimization of aAssign is handled in assign(), and should not
@@ -1690,7 +1690,7 @@ func callBin(n *node) {
 				}
 				return tnext
 			}
-		case aReturn:
+		case n.anc.action == aReturn && directReturn(n, n.anc.val.(*node)):
 			// The function call is part of a return statement, store output results
 			// directly in the frame location of outputs of the current function.
 			b := childPos(n)
@@ -2522,6 +2522,23 @@ func _return(n *node) {
 				values[i] = genValue(c)
 			}
 		}
+	}
+
+	if len(child) > 1 && !mustReturnValue(def.child[2]) {
+		// The results are named and can be operands of the return statement, as in
+		// "return y, x": evaluate all operands before setting the results.
+		n.exec = func(f *frame) bltn {
+			t := make([]reflect.Value, len(values))
+			for i, value := range values {
+				t[i] = reflect.New(f.data[i].Type()).Elem()
+				t[i].Set(value(f))
+			}
+			for i := range t {
+				f.data[i].Set(t[i])
+			}
+			return nil
+		}
+		return
 	}
 
 	switch len(child) {
